@@ -382,6 +382,40 @@ func (f *ctorFlow) classify(v ssa.Value) string {
 	if !f.isFunc {
 		return "set"
 	}
+	return f.classifyDepth(v, 0)
+}
+
+// classifyDepth classifies a function value. A merged value (a local that
+// was given the config's function and replaced by a default when nil) is
+// non-nil if every incoming value is non-nil on its edge: either by itself, or
+// because the edge is the non-nil side of a nil test of that same value.
+func (f *ctorFlow) classifyDepth(v ssa.Value, depth int) string {
+	if phi, ok := ir.ResolveCell(v).(*ssa.Phi); ok && depth < 4 {
+		worst := "nonnil"
+		for i, e := range phi.Edges {
+			pred := phi.Block().Preds[i]
+			k := f.classifyDepth(e, depth+1)
+			if strings.HasPrefix(k, "maybe:") {
+				sym := strings.TrimPrefix(k, "maybe:")
+				isIt := func(x ssa.Value) bool { return ir.Sym(x) == sym }
+				if ir.NonNilAt(pred, sym) || edgeHasNil(pred, phi.Block(), isIt, false) {
+					k = "nonnil"
+				} else if edgeHasNil(pred, phi.Block(), isIt, true) {
+					k = "nil"
+				}
+			}
+			if k != "nonnil" {
+				worst = k
+			}
+		}
+		if worst != "nonnil" && !strings.HasPrefix(worst, "maybe:") {
+			return worst
+		}
+		if worst != "nonnil" {
+			return "maybe:" + ir.Sym(v)
+		}
+		return worst
+	}
 	if ir.IsNilConst(v) {
 		return "nil"
 	}
